@@ -1,6 +1,7 @@
 /- GENERATED on every run by harness/corr/C18_table.py from src/py_gql/lang/visitor.py and src/py_gql/lang/ast.py
    (+ witness documents parsed by src/py_gql/lang/parser.py).
-   Do not edit: the check rewrites this file from /repo's working tree. -/
+   Do not edit: the check rewrites this file from /repo's working tree.
+-/
 
 import PyGqlModel.Visit
 namespace PyGql.Generated.VisitTable
